@@ -970,7 +970,7 @@ func bMul(intp *Interpreter) error {
 	} else {
 		ci := ai * bi
 		// check for integer overflow
-		if ai != 0 && ci/ai != bi {
+		if ai != 0 && (ci/ai != bi || (ai == -1 && bi == math.MinInt)) {
 			intp.Stack = append(intp.Stack, Real(ai)*Real(bi))
 		} else {
 			intp.Stack = append(intp.Stack, ci)
